@@ -35,7 +35,7 @@ PROBES = ['rejection_repeated_on_retry', 'duplicate_between_two_later_parts', 't
           'unpickled_database_answered', 'invalid_description_rejected',
           'files_rewritten_between_two_database_objects',
           'constructor_given_a_list_or_tuple_of_parts', 'two_client_threads',
-          'callers_list_extended_after_construction']
+          'callers_list_extended_after_construction', 'list_request_with_a_repeated_name']
 BUDGET = {
     'quick': {'families': 10000, 'wall_cap': 420, 'shrink_s': 10},
     'thorough': {'families': 100000, 'wall_cap': 5400, 'shrink_s': 30},
@@ -152,6 +152,10 @@ def gen(rng, tier, index):
                 pool = names + aliases
                 if rng.random() < 0.2 and names:
                     req = rng.sample(names, rng.randrange(1, len(names) + 1))
+                    if rng.random() < 0.3:
+                        # the same name more than once (adjacent or not): the
+                        # concatenation repeats its examples
+                        req.insert(rng.randrange(0, len(req) + 1), rng.choice(req))
                 else:
                     req = rng.choice(pool)
                 # hold? / which database object (a second one with the same
@@ -451,7 +455,13 @@ def run(case):
                         elif isinstance(req, list) and sp % 3 == 2:
                             req_arg = (r_ for r_ in req)
                         ds = target.get_dataset(req_arg)
-                        got = list(ds.items()) if not isinstance(req, list) or True else None
+                        if isinstance(req, list) and len(set(req)) != len(req):
+                            # keys repeat: key iteration is refused by design, the
+                            # examples are compared (each carries its example_id)
+                            got = [(v['example_id'], v) for v in ds]
+                            probes['list_request_with_a_repeated_name'] = 1
+                        else:
+                            got = list(ds.items())
                     except Exception as e:
                         if kind == 'error':
                             fired['expected_error_' + exp.split(' ')[0]] = 1
